@@ -71,8 +71,10 @@ def generate(tier, seed):
             cases.append("pm km %s %s" % (enc(k), enc(p)))
             cases.append("pm kg %s %s" % (enc(k), enc(p)))
     # regex_match on the documented word alternatives
-    for p in ["GET", "^GET$", "(GET)|(POST)", "^(GET|POST)$", "GET|POST", "^GET", "POST$"]:
-        for k in ["GET", "POST", "PUT", "GETS", "AGET", "", "GETPOST", "get"]:
+    # ("^GET|POST$" and its one-sided forms anchor only the neighbouring alternative: outside the model's word class since the
+    #  proof of part 16 showed the model misread them; kept as totality probes, the model answers "U" = no claim)
+    for p in ["GET", "^GET$", "(GET)|(POST)", "^(GET|POST)$", "GET|POST", "^GET", "POST$", "^GET|POST$", "^GET|POST", "GET|POST$"]:
+        for k in ["GET", "POST", "PUT", "GETS", "AGET", "", "GETPOST", "get", "GETx", "xPOST"]:
             cases.append("pm rm %s %s" % (enc(k), enc(p)))
     # seeded random longer patterns / keys
     n_rand = 2000 if tier == "quick" else 40000
